@@ -528,6 +528,13 @@ impl Estimator {
         let delta_t_start = duration_to_secs(now - self.start_time);
         let total_weight = 1.0 - estimator_weight(delta_t_start);
 
+        // No time has passed since the estimator was (re)started (creation, reset, or a
+        // backwards seek recorded at this very instant): there is no data yet, and the
+        // normalization below would compute 0.0 / 0.0 = NaN.
+        if total_weight == 0.0 {
+            return 0.0;
+        }
+
         // Generate updated values for `smoothed_steps_per_sec` and `double_smoothed_steps_per_sec`
         // (sps and dsps) without storing them. Note that we normalize sps when using it as a
         // source to update dsps, and then normalize dsps itself before returning it.
